@@ -31,9 +31,9 @@ ASSUMPTIONS = [
     'no two attributes of one element differ only by ASCII case',
 ]
 
-BASE = ['a', 'p', 'div', 'span', 'x']
+BASE = ['a', 'p', 'div', 'span', 'x', 'svg']
 NONASCII = ['xé', 'xÉ', 'xǆ', 'xǅ', 'xK', 'xk']        # é/É, dž digraphs, KELVIN SIGN vs k
-ATTRN = ['title', 'data-x', 'type', 'data-é', 'data-É', 'dataK', 'lang']
+ATTRN = ['title', 'data-x', 'type', 'data-é', 'data-É', 'dataK', 'lang', 'viewBox', 'preserveAspectRatio']
 TYPEV = ['text', 'TEXT', 'Text', 'radio', 'x']
 VALS = ['x', 'X', 'xY', 'xy', 'XY', 'é', 'x y', '']
 HTML_ONLY = [':any-link', ':link', ':checked', ':default', ':disabled', ':enabled', ':indeterminate', ':optional', ':required',
